@@ -401,7 +401,7 @@ def nt_document(rng, quads, nq, minimal=0.08, esc=0.15, flags=None):
 
 
 R_IRI = [E + "a", E + "b", E + "p", "urn:x:y", E + "a#f", E + "é中", E + "a%20b", "a:", E + "\U0001F600", "mailto:a@b", "A+b-c.d:x"]
-R_IRI_SPACE = [E + "a b", E + " ", E + "x　"]                  # finding C05g (raw Unicode white space)
+R_IRI_SPACE = [E + "a b", E + " ", E + "x　"]                  # read since 4d2427e4 (was finding C05g: raw Unicode white space)
 R_LABEL = ["b1", "b", "a.b", "a-b", "_x", "1", "a:b", "x..y", "0-", ":", "A_"]
 R_LABEL_UNI = ["é", "a·", "à", "\U00010000x", "aé.b"]                        # finding C05f
 R_LEX = LEX + ["\b\f", "a\\tb", "\x7f\x80", "퟿", "\U0010FFFF"]
@@ -455,7 +455,7 @@ class NtRead(Suite):
     oeq = "robs_eqb"
     spec = "rd_spec_ok"
     kf = "rd_kf"
-    kf_ids = {6: "C05f", 7: "C05g", 8: "C05h"}
+    kf_ids = {6: "C05f", 8: "C05h"}
     corr = "W3CNTriplesParser.parse/readline/parseline/uriref/nodeid/literal, NQuadsParser.parseline, ntriples.unquote, compat.decodeUnicodeEscape"
     quick_n = 700
     thorough_n = 15000
